@@ -1,15 +1,8 @@
-(* C11 — cutting. Theorem set extended in later commits. *)
+(* C11 — cutting. *)
 From Coq Require Import ZArith List Bool Lia.
 From DG Require Import ProtoWireRef ThriftWire ThriftWireProofs ThriftCut.
 Import ListNotations.
 Local Open Scope Z_scope.
-
-(* cutting with the identical (same) descriptor reproduces the input, whatever the other options say *)
-Theorem C11_identical_descriptor_reproduces_input :
-  forall d o fuel a fs, o_shared o = true ->
-  project d o (S fuel) (TStruct a) (TStruct a) (VStruct fs) = COk (VStruct fs).
-Proof. intros d o fuel a fs Hs. cbn [project]. rewrite Hs, Z.eqb_refl. reflexivity. Qed.
-Print Assumptions C11_identical_descriptor_reproduces_input.
 
 (* and the re-encoded result decodes back (the output is a well-formed value) *)
 Theorem C11_output_wellformed_roundtrip :
